@@ -283,6 +283,19 @@ const char *type_to_string(Type type) {
 /* Forward declarations */
 static Type check_statement(TypeChecker *tc, ASTNode *node);
 
+const char *get_struct_type_name(ASTNode *expr, Environment *env);
+
+/* Structs are nominal: a value of struct B is not a value of struct A, whatever their fields.
+ * Returns the name of the value's struct when it is known and is a different struct than 'want'
+ * (union variant pseudo-names "Union.Variant" and unknown names are not judged). */
+static const char *other_struct_name(const char *want, ASTNode *value, Environment *env) {
+    if (!want || !value || strchr(want, '.')) return NULL;
+    if (!env_get_struct(env, want)) return NULL;          /* opaque handles, unions, generics */
+    const char *got = get_struct_type_name(value, env);
+    if (!got || strchr(got, '.') || !env_get_struct(env, got)) return NULL;
+    return strcmp(want, got) != 0 ? got : NULL;
+}
+
 /* The checker of the statement being checked, for block expressions (match arms) met inside
  * check_expression(), which is not passed one */
 static TypeChecker *g_statement_tc = NULL;
@@ -2071,6 +2084,17 @@ static Type check_expression_impl(ASTNode *expr, Environment *env) {
                             }
                         }
                         
+                        if (arg_type == TYPE_STRUCT && func->params[i].type == TYPE_STRUCT) {
+                            const char *other = other_struct_name(func->params[i].struct_type_name, arg, env);
+                            if (other) {
+                                char message[256];
+                                snprintf(message, sizeof(message), "Argument %d expects struct %s, got struct %s.",
+                                         i + 1, func->params[i].struct_type_name, other);
+                                emit_context_error("TYPE MISMATCH", expr->line, expr->column, 1, message,
+                                                   "Pass a value of the parameter's struct type.");
+                            }
+                        }
+
                         if (!is_opaque_param && !is_opaque_arg && !types_match(arg_type, func->params[i].type)) {
                             char message[256];
                             snprintf(message, sizeof(message),
@@ -3421,6 +3445,14 @@ static Type check_statement_impl(TypeChecker *tc, ASTNode *stmt) {
                     /* This happens when function signatures aren't fully parsed yet, or when */
                     /* dealing with function-typed parameters where we don't have full signature info */
                 }
+            } else if (declared_type == TYPE_STRUCT && value_type == TYPE_STRUCT &&
+                       other_struct_name(stmt->as.let.type_name, stmt->as.let.value, tc->env)) {
+                char message[256];
+                snprintf(message, sizeof(message), "Let binding expects struct %s but got struct %s.",
+                         stmt->as.let.type_name, other_struct_name(stmt->as.let.type_name, stmt->as.let.value, tc->env));
+                emit_context_error("TYPE MISMATCH", stmt->line, stmt->column, 1, message,
+                                   "Ensure the assigned expression matches the declared type.");
+                tc->has_error = true;
             } else if (!types_match(value_type, declared_type)) {
                 char message[256];
                 snprintf(message, sizeof(message),
@@ -3595,6 +3627,16 @@ static Type check_statement_impl(TypeChecker *tc, ASTNode *stmt) {
                 }
             }
 
+            if (sym->type == TYPE_STRUCT && value_type == TYPE_STRUCT &&
+                other_struct_name(sym->struct_type_name, stmt->as.set.value, tc->env)) {
+                char message[256];
+                snprintf(message, sizeof(message), "Assignment expects struct %s but got struct %s.",
+                         sym->struct_type_name, other_struct_name(sym->struct_type_name, stmt->as.set.value, tc->env));
+                emit_context_error("TYPE MISMATCH", stmt->line, stmt->column, 1, message,
+                                   "Assign a value of the variable's struct type.");
+                tc->has_error = true;
+            }
+
             if (!types_match(value_type, sym->type)) {
                 char message[256];
                 snprintf(message, sizeof(message),
@@ -3714,6 +3756,12 @@ g_checking_for_range = (stmt->as.for_stmt.range_expr &&
                 Type return_type = check_expression(stmt->as.return_stmt.value, tc->env);
                 if (!types_match(return_type, tc->current_function_return_type)) {
                     fprintf(stderr, "Error at line %d, column %d: Return type mismatch\n", stmt->line, stmt->column);
+                    tc->has_error = true;
+                } else if (return_type == TYPE_STRUCT &&
+                           other_struct_name(tc->current_function_return_struct_name, stmt->as.return_stmt.value, tc->env)) {
+                    fprintf(stderr, "Error at line %d, column %d: Return type mismatch: the function returns struct %s, this is a struct %s\n",
+                            stmt->line, stmt->column, tc->current_function_return_struct_name,
+                            other_struct_name(tc->current_function_return_struct_name, stmt->as.return_stmt.value, tc->env));
                     tc->has_error = true;
                 }
             } else {
@@ -6025,6 +6073,8 @@ static bool type_check_module_impl(ASTNode *program, Environment *env) {
     tc.warnings_enabled = true;
     tc.in_unsafe_block = false;  /* Start outside unsafe blocks */
     tc.loop_depth = 0;           /* Start outside loops */
+    tc.current_function_return_type = TYPE_VOID;
+    tc.current_function_return_struct_name = NULL;
 
     /* Register built-in functions */
     register_builtin_functions(env);
@@ -6491,6 +6541,7 @@ sdef.is_pub = item->as.struct_def.is_pub;            /* Propagate public visibil
             
             /* Set current function return type for return statement checking */
             tc.current_function_return_type = item->as.function.return_type;
+            tc.current_function_return_struct_name = item->as.function.return_struct_type_name;
 
             /* Register generic union instantiation for function return type */
             if (item->as.function.return_type == TYPE_UNION &&
